@@ -1,34 +1,35 @@
 SPECIFICATION Spec
 CONSTANTS
-  Mode = "oneshot"
+  Mode = "start"
   CupOn = FALSE
-  Apps0 <- MCApps2
+  Apps0 <- MCApps1
   SysApp = "a"
-  UcAnswers <- MCUcSfail
+  UcAnswers <- MCUcHistory
   EvAnswers <- MCEvOk
   PingAnswers <- MCPing
   PlanAnswers = {"ok"}
-  StartAnswers = {"ok", "deferred"}
+  StartAnswers = {"ok"}
   ResultLetters = {"i", "f"}
   NeededAnswers = {TRUE}
-  AllowedAnswers = {TRUE}
-  CheckAnswers <- MCCheckAll
+  AllowedAnswers = {TRUE, FALSE}
+  CheckAnswers <- MCCheckOkOnly
   NextAnswers <- MCNext1
   BackoffDraws = {0}
   ProgressSeqs <- MCProg0
-  MaxChecks = 1
-  MaxCtl = 0
-  CtlSources <- MCNoSrc
-  MaxRebootAsks = 0
-  MaxCrashes = 0
-  RestartRuns <- MCRestartNone
-  FailSets <- MCFailPairs
+  MaxChecks = 2
+  MaxCtl = 1
+  CtlSources <- MCSrcBoth
+  MaxRebootAsks = 1
+  MaxCrashes = 2
+  RestartRuns <- MCRestarts
+  FailSets <- MCFailNone
   Jumps <- MCJumpNone
   MaxJumps = 0
   ProgressModes = {"seq"}
-  MaxStale = 0
+  MaxStale = 2
   Bounded = TRUE
   Mut = "none"
 INVARIANT NoViolation
+INVARIANT RecoverAgrees
 INVARIANT PrintDone
 CHECK_DEADLOCK FALSE
